@@ -76,6 +76,31 @@ Qed.
 Print Assumptions C07_identity_roundtrip.
 
 (** every class has at least one compared attribute in its table (the statement above is not vacuous) *)
+(** __hash__ agrees with __eq__ for the six identity classes (both read off the source on every run): every
+    attribute a hash is computed from is compared by __eq__, and a map-valued attribute (env) is hashed through
+    its sorted items.  Hence, under Python's contract for the built-in values held by the attributes (equal values
+    hash equally - a hypothesis of the theorem, nothing is assumed about items in insertion order), objects that
+    __eq__ considers equal have equal hashes: a loaded run is found in the set of configured runs, and a run
+    requested from two places is one run (C01). *)
+Theorem C07_hash_tables_ok : forallb hash_ok identity_hashes = true.
+Proof. vm_compute. reflexivity. Qed.
+Print Assumptions C07_hash_tables_ok.
+
+Theorem C07_equal_objects_hash_equally :
+  forall (V : Type) (veq : V -> V -> Prop) (h_plain h_tuple h_sorted h_items : V -> nat),
+    (forall a b, veq a b -> h_plain a = h_plain b) ->
+    (forall a b, veq a b -> h_tuple a = h_tuple b) ->
+    (forall a b, veq a b -> h_sorted a = h_sorted b) ->
+    forall c o1 o2, In c identity_hashes ->
+      (forall a, In a (fst c) -> veq (o1 a) (o2 a)) ->
+      map (proj V h_plain h_tuple h_sorted h_items o1) (snd c) = map (proj V h_plain h_tuple h_sorted h_items o2) (snd c).
+Proof.
+  intros V veq hp ht hs hi Hp Ht Hs c o1 o2 Hc Heq.
+  apply (equal_objects_hash_equally V veq hp ht hs hi Hp Ht Hs c o1 o2); [|exact Heq].
+  pose proof C07_hash_tables_ok as H. rewrite forallb_forall in H. apply H. exact Hc.
+Qed.
+Print Assumptions C07_equal_objects_hash_equally.
+
 Example C07_identity_tables_nonempty : forallb (fun t => negb (Nat.eqb (length t) 0)) identity_tables = true /\ length identity_tables = 6.
 Proof. vm_compute. split; reflexivity. Qed.
 
